@@ -1055,7 +1055,10 @@ class Messenger(Connection):
         self.send_ready()
 
         self._keepalive_reset()
-        self._idle_reset()
+        # A message that only sits in this buffer is not traffic: the idle
+        # timer is restarted when octets really leave (send_progress)
+        if self._idle_timer_id is None:
+            self._idle_reset()
 
     def send_reject(self, reason, pkt=None):
         ''' Send a message rejection response.
